@@ -18,7 +18,8 @@ META = dict(
               "real charge in [-20, 20] and spin polarisation in [-8, 8] (set, absent, or derived from restricted "
               "orbitals with symbolic occupations); every run type incl. None and upper case; default template and 3 user "
               "templates using subsets of the fields; custom atom_line callback; keyword fields overriding defaults; "
-              "template with an unknown field",
+              "templates with an unknown field, attribute access on a field, a bad format spec and a bad index; an atom_line "
+              "callback raising one of six exception types",
         thorough="as quick with 200 atoms"),
     outside=["coordinates beyond (-1e4, 1e5) angstrom", "digit-level rounding of the printed coordinates"],
     assumptions=["str.format on symbolic numbers yields placeholder tokens (symx.tokens)", "int/abs/np.round modelled on "
@@ -37,6 +38,9 @@ TEMPLATES = {
     "t2": "{geometry}\n--\n{charge}",
     "t3": "method {lot}\nmult {spinmult}\n{geometry}\nextra {myfield}",
     "bad": "{charge} {nonexistent_field}\n{geometry}",
+    "bad-attr": "{charge} {title.nosuchattribute}\n{geometry}",
+    "bad-spec": "{charge:qq}\n{geometry}",
+    "bad-index": "{lot[99]}\n{geometry}",
 }
 
 
@@ -176,14 +180,22 @@ def h_write_input(ctx, program="gaussian", natom=2, tname="default", chg="set", 
             elif ov == "title":
                 user["title"] = "title given as keyword"
 
+        fail_kind = None
+        if custom_atom_line == "raises":
+            fail_kind = ctx.choice(["ZeroDivisionError", "RuntimeError", "AttributeError", "KeyError", "OSError", "AssertionError"],
+                                   label="callback-exception")
+
         def my_atom_line(d, i):
+            if fail_kind is not None and i == natom - 1:
+                raise {"ZeroDivisionError": ZeroDivisionError, "RuntimeError": RuntimeError, "AttributeError": AttributeError,
+                       "KeyError": KeyError, "OSError": OSError, "AssertionError": AssertionError}[fail_kind]("callback failed")
             return f"ATOM{i} {d.atnums[i]} {d.atcoords[i, 0]:12.8f}"
         path = ctx.tmp_path("input.in")
         err = None
         try:
             api.write_input(data, path, fmt=program, template=template,
                             atom_line=my_atom_line if custom_atom_line else None, **user)
-        except (FileFormatError, WriteInputError) as e:
+        except Exception as e:      # noqa: BLE001 - the type of the exception is what the obligations below are about
             err = e
         keywords = GAUSSIAN_KEYWORDS if program == "gaussian" else ORCA_KEYWORDS
         rt_key = (run_type or "energy").lower()
@@ -191,8 +203,9 @@ def h_write_input(ctx, program="gaussian", natom=2, tname="default", chg="set", 
         if program not in ("gaussian", "orca"):
             ctx.oblige("unknown-program-raises-FileFormatError", isinstance(err, FileFormatError), cls=cls)
             return
-        if tname == "bad" or rt_key not in keywords:
-            ctx.oblige("render-failure-raises-WriteInputError", isinstance(err, WriteInputError), cls=cls)
+        if tname.startswith("bad") or rt_key not in keywords or fail_kind is not None:
+            ctx.oblige("render-failure-raises-WriteInputError", isinstance(err, WriteInputError), cls=cls + (f",{fail_kind}" if fail_kind else ""),
+                       detail=repr(err))
             return
         ctx.oblige("valid-input-is-written", err is None, cls=cls, detail=str(err))
         if err is not None:
@@ -263,9 +276,9 @@ def jobs(tier):
     out = []
     big = 200 if tier == "thorough" else 40
     for program in ("gaussian", "orca"):
-        for tname in ("default", "t1", "t2", "t3", "bad"):
+        for tname in ("default", "t1", "t2", "t3", "bad", "bad-attr", "bad-spec", "bad-index"):
             for chg, spin in (("set", "set"), ("none", "none"), ("mo", "mo"), ("ecp", "set")):
-                if tname in ("t2", "t3", "bad") and chg != "set":
+                if (tname in ("t2", "t3") or tname.startswith("bad")) and chg != "set":
                     continue
                 for natom in (1, 2):
                     if natom == 1 and tname != "default":
@@ -277,6 +290,8 @@ def jobs(tier):
                        dict(program=program, natom=big, tname="default"), budget_s=600, max_validate=3))
         out.append(job("C19", f"write_input[{program},custom-atom-line]", M, "h_write_input",
                        dict(program=program, natom=2, tname="default", custom_atom_line=True), max_validate=5))
+        out.append(job("C19", f"write_input[{program},failing-atom-line]", M, "h_write_input",
+                       dict(program=program, natom=2, tname="default", custom_atom_line="raises"), max_validate=12))
         out.append(job("C19", f"write_input[{program},wide-coordinates]", M, "h_write_input",
                        dict(program=program, natom=1, tname="default", wide=True), budget_s=300, max_validate=6))
     out.append(job("C19", "write_input[unknown-program]", M, "h_write_input", dict(program="nwchem", natom=1),
